@@ -8,7 +8,7 @@ def check(tier, seed):
     return G.generic_check(PID, "proof", tier, seed, coq=True,
         rule="obligations: theorems of coq/properties/C02.v (PosImpl.do_move refines Rules.make for every pseudo-legal move of every well-formed position); correspondence: DoMove/UndoMove/DoNullMove/UndoNullMove/HasCheck sequences on the real Position vs PosImpl.run_ops evaluated inside Coq, 105 observables after every operation (pos-cases); " + RULE + "; compared here: for every legal move the FEN after DoMove (placement, side, rights, ep square, clocks) vs FenSpec.print (Rules.make p m); the engine's FEN of the position itself vs the spec printer",
         streams=[dict(name="position_model_vs_engine", kind="coqprint", shards=lambda t: 4 if t == "quick" else 16,
-                      args=lambda t, s, sh, path: ["pos-cases", 14 if t == "quick" else 60, s * 1000 + 700 + sh, path], coq_timeout=3000),
+                      args=lambda t, s, sh, path: ["pos-cases", 14 if t == "quick" else 60, s * 1000 + 700 + sh, path], coq_timeout=3000, replay_kinds=['long-game-successor-wrong']),
                  dict(name="capacity_game", kind="monitor", shards=lambda t: 2,
                       args=lambda t, s, sh, path: ["pos-monitor", 50 if t == "quick" else 500, s * 1000 + 980 + sh, 1],
                       violation_kinds=["long-game-successor-wrong"]),
